@@ -135,6 +135,7 @@ pub fn encode_fragment(h: &HostCfg, f: &Frag, pad: usize, ttl: u8) -> (Vec<u8>, 
     if h.v6 {
         let ext_len: usize = ip_header_len(h) - 40;
         let plen = ext_len + f.payload.len();
+        assert!(plen <= 65_535, "harness: IPv6 payload length {plen} does not fit the length field");
         out.extend_from_slice(&[0x60 | (ttl >> 4), (ttl << 4) | 0x03, 0x12, 0x34]);
         out.extend_from_slice(&(plen as u16).to_be_bytes());
         let first_next = h.v6_pre.first().map(|e| e.kind).unwrap_or(44);
@@ -161,6 +162,7 @@ pub fn encode_fragment(h: &HostCfg, f: &Frag, pad: usize, ttl: u8) -> (Vec<u8>, 
     } else {
         let hl = 20 + 4 * usize::from(h.v4_opt_words);
         let total = hl + f.payload.len();
+        assert!(total <= 65_535, "harness: IPv4 total length {total} does not fit the length field");
         out.push(0x40 | (hl / 4) as u8);
         out.push(ttl & 0xfc);
         out.extend_from_slice(&(total as u16).to_be_bytes());
